@@ -444,6 +444,8 @@ def explore(stmts, atoms, names=(), upto=None, max_paths=20000, exceptions=False
             for t in (node.ast.targets if isinstance(node.ast, ast.Assign) else [node.ast.target]):
                 if isinstance(t, (ast.Subscript, ast.Attribute)):
                     stores = stores + ((src(t), src(node.ast.value), type(node.ast).__name__),)
+        if node.kind == 'stmt' and isinstance(node.ast, ast.Expr) and isinstance(node.ast.value, (ast.Yield, ast.YieldFrom)):
+            stores = stores + (('<yield>', src(node.ast.value.value) if node.ast.value.value is not None else 'None', type(node.ast.value).__name__),)
         if node.kind == 'stmt' and isinstance(node.ast, (ast.Return, ast.Raise)):
             last = node.ast
         return (cenv, env, calls, last, stores)
